@@ -43,8 +43,12 @@ def configs(tier, seed):
         if tier == "quick" and len(lst) > n:
             head = lst[: n // 2]
             lst = head + rng.sample(lst[n // 2:], n - len(head))
-        for c in lst:
+        for k_, c in enumerate(lst):
             out.append({"kind": kind, "cfg": c})
+            if k_ % 3 == 0 and len(lst) > 1:
+                # another component of the same class, with other parameters, is built between this one's construction and its
+                # elaboration: instances must not share state through their class or module
+                out[-1]["decoy"] = lst[(k_ + 1) % len(lst)]
     take("mux", mux.configs(tier, seed, 19), 50)
     take("csr_decoder", C06.configs(tier, seed), 25)
     take("wb_decoder", C07.configs(tier, seed), 40)
@@ -282,6 +286,13 @@ def check_config(ctx, c):
             result("elaborates", False, f"construction raised an internal {type(e).__name__}: {e} at {where(e)}",
                    f"construct:{kind}:{type(e).__name__}:{where(e)}")
             return
+        if c.get("decoy") is not None:
+            try:
+                build(kind, c["decoy"])
+            except _Timeout:
+                raise
+            except Exception:
+                pass
         before = snapshot(mm)
         texts = []
         for k in range(3):
